@@ -118,6 +118,10 @@ def run(ctx: Ctx) -> int:
             lines.append("    mon.write(pot.read())" if k != 1 else "    v = pot.read() + 0\n    mon.write(v)")
         lines.append('    mon.write("#")')
         pjobs.append((nreads, "\n".join(lines) + "\n", [rng.randint(0, 1023) for _ in range(12)]))
+        if nreads:
+            # the same name bound again to another pin: reads use the pin of the latest declaration
+            relines = [l if l != 'pot = Potentiometer("A0")' else 'pot = Potentiometer("A3")\npot = Potentiometer("A0")' for l in lines]
+            pjobs.append((nreads, "\n".join(relines) + "\n", [rng.randint(0, 1023) for _ in range(12)]))
 
     # ---------------- compile each distinct source once, run with each input ------------------------------------------
     import cxx
